@@ -286,8 +286,8 @@ func ellCase(c *h.Ctx, tmpl *ref.Node, maxCount int, second bool) {
 
 func init() {
 	h.Register(&h.Check{
-		ID:   "C10",
-		Rule: "every list template of the scope (depth <= 3, width <= 4, items: list variable, arrays with 1-2 variables, bounded ASCII variable, constants, nested lists, an ellipsis at any position >= 1 of any list) x the complete product of {unfilled,0,1,2,3} per ellipsis (>= 1 filled) on the real FillVariables vs the reference expander R-ell; then every generated name filled individually and every remaining ellipsis filled in a second call; values and ellipses in one call; suffixed-name family (panic or unique); non-int/negative counts refused or ignored, never half-expanded; non-trivial = expansion executed and compared (String, Variables, Size)",
+		ID:          "C10",
+		Rule:        "every list template of the scope (depth <= 3, width <= 4, items: list variable, arrays with 1-2 variables, bounded ASCII variable, constants, nested lists, an ellipsis at any position >= 1 of any list) x the complete product of {unfilled,0,1,2,3} per ellipsis (>= 1 filled) on the real FillVariables vs the reference expander R-ell; then every generated name filled individually and every remaining ellipsis filled in a second call; values and ellipses in one call; suffixed-name family (panic or unique); non-int/negative counts refused or ignored, never half-expanded; non-trivial = expansion executed and compared (String, Variables, Size)",
 		Assumptions: []string{"a single remaining ellipsis may be named '...' or '...[0]' (the statement fixes neither)", "Go map iteration order is not controllable: every fill is a fresh randomised iteration"},
 		Build: func(tier string, seed int64) []h.Space {
 			var sp []h.Space
@@ -308,7 +308,11 @@ func init() {
 				}})
 			// deeper nesting: ellipsis chains of depth up to 4, counts up to 3 each
 			sp = append(sp, h.Space{Name: "nested-ellipsis-chains", Count: 4 * 4,
-				Describe: func(i uint64) interface{} { n := nestedEllipses(int(i/4)+1, int(i%4)); nameTemplate(n); return ref.Print(n) },
+				Describe: func(i uint64) interface{} {
+					n := nestedEllipses(int(i/4)+1, int(i%4))
+					nameTemplate(n)
+					return ref.Print(n)
+				},
 				Run: func(c *h.Ctx, i uint64) {
 					n := nestedEllipses(int(i/4)+1, int(i%4))
 					nameTemplate(n)
@@ -320,8 +324,12 @@ func init() {
 				}})
 			// larger repeat counts (multi-digit copy indices)
 			bigT := []func() *ref.Node{
-				func() *ref.Node { return ref.List(&ref.Node{Kind: ref.U1, Elems: []ref.Elem{{Var: "?"}}}, ref.Var("?"), ref.Ell("?")) },
-				func() *ref.Node { return ref.List(ref.List(ref.AsciiVar("?", 0, 2), ref.Ell("?")), ref.Ell("?"), ref.Var("?")) },
+				func() *ref.Node {
+					return ref.List(&ref.Node{Kind: ref.U1, Elems: []ref.Elem{{Var: "?"}}}, ref.Var("?"), ref.Ell("?"))
+				},
+				func() *ref.Node {
+					return ref.List(ref.List(ref.AsciiVar("?", 0, 2), ref.Ell("?")), ref.Ell("?"), ref.Var("?"))
+				},
 				func() *ref.Node { return ref.List(ref.Uints(ref.U1, 1), ref.Ell("?")) },
 			}
 			bigN := []int{9, 10, 11, 12, 25, 100, 101}
@@ -359,7 +367,9 @@ func init() {
 				}})
 			// ellipses and values in one call: values address the GENERATED names
 			sp = append(sp, h.Space{Name: "ellipsis-and-values-in-one-call", Count: 4 * 4,
-				Describe: func(i uint64) interface{} { return fmt.Sprintf("<L <U1 v0> v1 ...[0] <A v2>> with ...=%d and values for generated/original names, variant %d", i/4, i%4) },
+				Describe: func(i uint64) interface{} {
+					return fmt.Sprintf("<L <U1 v0> v1 ...[0] <A v2>> with ...=%d and values for generated/original names, variant %d", i/4, i%4)
+				},
 				Run: func(c *h.Ctx, i uint64) {
 					cnt := int(i / 4)
 					tmpl := ref.List(&ref.Node{Kind: ref.U1, Elems: []ref.Elem{{Var: "v0"}}}, ref.Var("v1"), ref.Ell("...[0]"), ref.AsciiVar("v2", 0, -1))
@@ -407,7 +417,9 @@ func init() {
 				ref.List(ref.AsciiVar("x", 0, -1), ref.Ell("..."), ref.AsciiVar("x[1]", 0, -1)),
 			}
 			sp = append(sp, h.Space{Name: "suffixed-name-family", Count: uint64(len(fam) * 4),
-				Describe: func(i uint64) interface{} { return fmt.Sprintf("%s with every ellipsis = %d", ref.Print(fam[i/4]), i%4) },
+				Describe: func(i uint64) interface{} {
+					return fmt.Sprintf("%s with every ellipsis = %d", ref.Print(fam[i/4]), i%4)
+				},
 				Run: func(c *h.Ctx, i uint64) {
 					t := fam[i/4]
 					m := map[string]interface{}{}
@@ -426,7 +438,9 @@ func init() {
 			// non-int and negative counts must be refused
 			badCounts := []interface{}{-1, -2, int64(1), uint(1), 1.0, "1", true, nil, int8(1), -1 << 40}
 			sp = append(sp, h.Space{Name: "invalid-repeat-counts", Count: uint64(len(badCounts) * 3),
-				Describe: func(i uint64) interface{} { return fmt.Sprintf("repeat count %T(%v) shape %d", badCounts[i/3], badCounts[i/3], i%3) },
+				Describe: func(i uint64) interface{} {
+					return fmt.Sprintf("repeat count %T(%v) shape %d", badCounts[i/3], badCounts[i/3], i%3)
+				},
 				Run: func(c *h.Ctx, i uint64) {
 					v := badCounts[i/3]
 					var t *ref.Node
